@@ -150,30 +150,37 @@ func (a *Affiliation) computeTriggersForCastingSites(pass *analysishelper.Enhanc
 					}
 
 					// e.g., func foo(i I), foo(&S{})
+					var fsig *types.Signature
 					if ident := asthelper.FuncIdentFromCallExpr(node); ident != nil {
-						if declObj := pass.TypesInfo.Uses[ident]; declObj != nil {
-							if fdecl, ok := declObj.(*types.Func); ok {
-								fsig := fdecl.Type().(*types.Signature)
-								nParams := fsig.Params().Len()
-								for i := 0; i < len(node.Args); i++ {
-									var lhsType types.Type // parameter of the declaration
-									switch {
-									case fsig.Variadic() && i >= nParams-1:
-										// the arguments of a variadic parameter `is ...I` are converted to I
-										// one by one, unless a slice is spread into it (`is...`)
-										lhsType = fsig.Params().At(nParams - 1).Type()
-										if slice, ok := lhsType.(*types.Slice); ok && !node.Ellipsis.IsValid() {
-											lhsType = slice.Elem()
-										}
-									case i < nParams:
-										lhsType = fsig.Params().At(i).Type()
-									default:
-										continue
-									}
-									rhsType := pass.TypesInfo.TypeOf(node.Args[i]) // caller param
-									appendTypeToTypeTriggers(lhsType, rhsType)
+						if fdecl, ok := pass.TypesInfo.Uses[ident].(*types.Func); ok {
+							fsig = fdecl.Type().(*types.Signature)
+						}
+					}
+					if fsig == nil {
+						// a call of a value of function type, e.g., `g := foo; g(&S{})`
+						if tv, ok := pass.TypesInfo.Types[node.Fun]; ok && tv.IsValue() {
+							fsig, _ = tv.Type.Underlying().(*types.Signature)
+						}
+					}
+					if fsig != nil {
+						nParams := fsig.Params().Len()
+						for i := 0; i < len(node.Args); i++ {
+							var lhsType types.Type // parameter of the declaration
+							switch {
+							case fsig.Variadic() && i >= nParams-1:
+								// the arguments of a variadic parameter `is ...I` are converted to I
+								// one by one, unless a slice is spread into it (`is...`)
+								lhsType = fsig.Params().At(nParams - 1).Type()
+								if slice, ok := lhsType.(*types.Slice); ok && !node.Ellipsis.IsValid() {
+									lhsType = slice.Elem()
 								}
+							case i < nParams:
+								lhsType = fsig.Params().At(i).Type()
+							default:
+								continue
 							}
+							rhsType := pass.TypesInfo.TypeOf(node.Args[i]) // caller param
+							appendTypeToTypeTriggers(lhsType, rhsType)
 						}
 					}
 
